@@ -100,6 +100,13 @@ static void c05_gen(plan_t *p, rng_t *r, int tier) {
 			if (faulty) maybe_fault(op, r, 300, 20);
 		}
 	}
+	/* the queue READ fails once in a while (EINTR, or EAGAIN as when another worker emptied the shared queue first):
+	 * the reader must simply come back - nothing is lost, nothing is dropped from the event set */
+	if (faulty && rng_chance(r, 350) && p->nops > 0) {
+		op_t *op = &p->ops[rng_below(r, (uint64_t)p->nops)];
+		item_t *f = op_add_fault(op, "qread");
+		if (f) { item_set(f, "nth", (long long)rng_range(r, 1, 6)); item_set(f, "err", rng_chance(r, 500) ? EINTR : EAGAIN); item_set(f, "count", (long long)rng_range(r, 1, 2)); item_set(f, "anyop", 1); }
+	}
 	/* stray bytes in a queue (a fault of the environment, not of the senders): the reader must resynchronise */
 	if (rng_chance(r, 140)) {
 		int nj = 1 + (int)rng_below(r, 3);
@@ -183,6 +190,8 @@ static void c05_pre(const plan_t *p) {
 	world_op_exec = c05_exec;
 }
 
+static void *racer_main(void *arg);
+static int g_racers_stop;
 static void *c05_root(void *arg) {
 	const plan_t *p = arg;
 	int n = (int)item_get(&p->cfg, "threads", 2), n2 = (int)item_get(&p->cfg, "threads2", 0);
@@ -221,6 +230,10 @@ static void *c05_root(void *arg) {
 		int probed[MAX_THR] = { 0 }, left;
 		W.slow_stop_hook_ns = 200000;
 		W.stop_hook_selfsend = 1 + (int)(p->seed & 2);
+		int racers[2], nr = (int)((p->seed >> 3) % 3);   /* 0..2 senders still busy */
+		g_racers_stop = 0;
+		for (int a = 0; a < nr; a++) { char nm[16]; snprintf(nm, sizeof(nm), "racer%d", a); racers[a] = sim_spawn(racer_main, (void *)(intptr_t)a, nm); }
+		if (nr) sim_yield("c05.racers_started");
 		tp_shutdown(pw->tp);
 		for (int round = 0; round < 400 && !sim_violated(); round++) {
 			left = 0;
@@ -246,10 +259,54 @@ static void *c05_root(void *arg) {
 			if (!left) break;
 			sim_sleep_ns(20000, "c05.late_probe");
 		}
+		g_racers_stop = 1;
+		for (int a = 0; a < nr; a++) sim_join_fiber(racers[a]);
 	}
 	return NULL;
 }
 
 static void c05_post(const plan_t *p) { (void)p; }
+
+/* Senders that are still at work while the pool shuts down, every queue write of theirs failing like a write to a
+ * queue that is being torn down. Whether a send that was ACCEPTED at that moment is still served is nobody's promise;
+ * what is promised still holds: a failed send never runs the callback - unless a direct-call option applies, and
+ * then it runs it once, at once, and reports success. */
+static void *racer_main(void *arg) {
+	int id = (int)(intptr_t)arg;
+	pool_w *pw = &W.pool[0];
+	unsigned x = (unsigned)(W.plan->seed >> 7) * 2654435761u + (unsigned)id * 97u;
+	extern void sim_fault_add(int op, const char *site, int nth, int count, int err);
+	sim_set_op(-7 - id);
+	sim_fault_add(-7 - id, "qwrite", 1 + (int)(x % 3), 100000, (x & 8) ? EPIPE : EBADF);
+	for (int it = 0; it < 60 && !g_racers_stop && !sim_violated() && W.nmsgs < MAX_MSG - 8; it++) {
+		static const uint32_t fls[] = { TP_MSG_F_FAIL_DIRECT, TP_MSG_F_FAIL_DIRECT, TP_MSG_F_FAIL_DIRECT | TP_MSG_F_SELF_DIRECT, 0, TP_MSG_F_FAIL_DIRECT | TP_MSG_F_FORCE };
+		uint32_t fl;
+		int dst, rc, qf;
+		msg_rec *m;
+		x = x * 1103515245u + 12345u;
+		fl = fls[(x >> 16) % 5];
+		dst = (int)((x >> 20) % (unsigned)pw->n);
+		if (pw->never_started[dst]) continue;
+		m = world_new_msg(-1, MK_PLAIN, 0, dst, fl);
+		m->race = 1; m->sent = 1; m->send_fiber = sim_self(); m->sender_tpt = NULL; m->dst_running = 1; m->in_send = 1; m->qfail_before = sim_qwrite_fails();
+		m->invoke_seq = sim_evseq();
+		rc = tpt_msg_send(pw->thr[dst], NULL, fl, world_msg_cb, m);
+		m->in_send = 0; m->rc = rc; m->return_seq = sim_evseq();
+		qf = sim_qwrite_fails() - m->qfail_before;
+		sim_probe("c05.send_during_shutdown");
+		if (qf > 0 && (fl & TP_MSG_F_FAIL_DIRECT)) {
+			sim_probe("c05.fail_direct_during_shutdown");
+			if (0 != rc || m->exec_count != 1 || !m->exec_sync) {
+				sim_violation("msg-fail-direct-skipped", "send with TP_MSG_F_FAIL_DIRECT (flags %x) to thread %d while the pool shuts down: the queue write failed, the call returned %d and ran the callback %d time(s) (expected: direct call, 0)", fl, dst, rc, m->exec_count);
+				break;
+			}
+		} else if (0 != rc && m->exec_count != 0) {
+			sim_violation("msg-fail-but-ran", "send during shutdown returned %d but the callback ran", rc);
+			break;
+		}
+		sim_yield("racer.next");
+	}
+	return NULL;
+}
 
 const harness_t h_c05 = { "C05", c05_gen, c05_pre, c05_root, c05_post };
